@@ -347,6 +347,8 @@ pub struct Violation {
     /// ownership violations: family of the combinator that owned the child /
     /// the child that produced the value
     pub fam: Option<Family>,
+    /// harness clock at which the violation was recorded
+    pub at: u32,
 }
 
 /// The task waker the harness executor hands to the top-level combinator.
@@ -410,6 +412,9 @@ pub struct World {
     pub leaves: Vec<NodeId>,
     /// the groups driver judges group nodes with its own model
     pub group_model: bool,
+    /// the caller caught an injected panic and went on polling the combinator:
+    /// clock of that panic (from then on only ownership is judged)
+    pub post_panic: Option<u32>,
     /// zero-sized values that are alive (handles of the tokens behind them)
     pub zst_pool: Vec<u32>,
     /// co-stream bookkeeping lives here too (see costream.rs)
@@ -597,7 +602,8 @@ impl World {
             if self.trace_on {
                 self.trace.push(format!("  !! {:?}: {}", oracle, msg));
             }
-            self.viol.push(Violation { oracle, msg, fam });
+            let at = self.clock;
+            self.viol.push(Violation { oracle, msg, fam, at });
         }
     }
 
@@ -848,6 +854,9 @@ impl World {
 pub fn leaf_size_hint(id: NodeId) -> (usize, Option<usize>) {
     try_with(|w| match w.nodes.get(id).map(|n| &n.kind) {
         Some(NodeKind::Leaf { script, pos, always, hint, .. }) => {
+            if *always && *hint == 4 {
+                return (usize::MAX, Some(usize::MAX));
+            }
             if *always || *hint == 0 {
                 return (0, None);
             }
@@ -862,6 +871,11 @@ pub fn leaf_size_hint(id: NodeId) -> (usize, Option<usize>) {
                     Step::End => break,
                     _ => {}
                 }
+            }
+            if *hint == 3 {
+                // honest and useless: "at most usize::MAX" is a valid upper bound of
+                // any stream (and the exact one of a long range)
+                return (n / 2, Some(if n % 2 == 0 { usize::MAX } else { isize::MAX as usize }));
             }
             if *hint == 2 {
                 // honest but inexact, as after a `filter`: the lower bound under-reports,
